@@ -1,11 +1,14 @@
 """C17 — Cropping and extending keep data on its coordinates and hit the requested size."""
 import inspect
+import itertools
 import math
 from fractions import Fraction
 
 from ..core import Op, jkey
 from ..rat import rat, frac, tol_eq
 from ..axis_common import guarded, f, fl, is_err, dy, rats, canon_exc
+from .. import c17_calls as calls
+from .. import history
 
 PROPERTY = "C17"
 LEAN_MODULE = "Proofs.C17"
@@ -15,7 +18,8 @@ THEOREMS = [_T + n for n in [
     "C17_width", "C17_placement", "C17_regular_axis_continues", "C17_step_known", "C17_arange_by_count",
     "C17_crop_bounds", "C17_extend_plan", "C17_extend_exact", "C17_width_keeps", "C17_crop_window",
     "C17_step_options", "C17_extend_closed", "C17_crop_closed", "C17_width_closed", "C17_step_closed",
-    "C17_history_on_lattice", "C17_extend_twice"]]
+    "C17_history_on_lattice", "C17_extend_twice", "C17_positional_binding", "C17_crop_positional", "C17_extend_positional",
+    "C17_width_positional", "C17_step_positional", "C17_session_pointwise", "C17_session_replay"]]
 LEVEL_TEXT = ("Lean theorems over the rational model of crop_dim (exactly the samples in the requested interval when no "
               "coordinate lies within eps of an open end), extend_dim (the whole result = filled samples on the lattice points "
               "below, the array itself, filled samples on the lattice points above; exactly the lattice points inside the "
@@ -29,22 +33,42 @@ LEVEL_TEXT = ("Lean theorems over the rational model of crop_dim (exactly the sa
               "over 1-3 dimensions); defaults (eps, tolerances, closedness) are re-extracted from the signatures on every run. "
               "Histories: the class of arrays the theorems speak about (non-empty piece of the lattice, step known) is proved "
               "closed under every operation, and chains of 2-4 calls, each on the real output of the previous one, are "
-              "compared call by call with the composed model.")
+              "compared call by call with the composed model. Calling conventions: Python's argument binding is part of the "
+              "model (bindArgs with the model's signature tables); for any current signature whose leading positional parameters "
+              "are the documented ones (re-extracted with inspect.signature on every run, 7 table obligations) every way of passing "
+              "the optional arguments - k leading ones positionally in the documented order, the rest by keyword - is proved to "
+              "bind each parameter to the value meant for it, and every such call style is run against the real code. Sessions "
+              "(consecutive independent calls in one process on fresh, reused-and-changed and caller-edited objects) are judged "
+              "call by call: the session model is proved pointwise and replay-stable.")
 LEVEL_NOTE = ("Unmodelled: binary64 rounding of numpy arange with a fractional step and of `end + k * step` (probed on the "
               "real code by the free-mode monitors with steps 0.01, 1/3, 0.004, 1/44100: length, data on coordinates, "
               "coordinates within 2^-40 of the lattice); xarray sel / reindex are modelled as label slice / label lookup. "
               "Requested open ends within eps of a coordinate are excluded by hypothesis, as in the property. "
               "Symbolic ties cover the arithmetic before the hand-over to xarray; crop_dim_width / extend_dim_width (integer "
               "index arithmetic) and get_dim_step (numpy reductions) are tied by generator-bounded correspondence, the "
-              "defaults by a table obligation.")
-TECHNIQUE = ("Lean 4 proof over model; symbolic-trace equality obligations for the crop_dim / extend_dim kernels; exact "
-             "differential correspondence on dyadic axes; free-mode monitors for arange rounding")
+              "defaults and the positional order of the signatures by table obligations. Sessions, construction paths (11 ways "
+              "of building the array, 3 dimension names, 4 layouts, float32 / int64 axes, numpy scalar arguments), option "
+              "products, tolerance-sized offsets around every comparison and size thresholds (16 .. 1025 samples) are "
+              "generator-bounded correspondence on dyadic axes; every lattice point of a few non-dyadic axes is swept by the "
+              "free-mode monitors.")
+TECHNIQUE = ("Lean 4 proof over model; symbolic-trace equality obligations for the crop_dim / extend_dim kernels; table "
+             "obligations for the signature defaults and the positional order of the seven public signatures; exact "
+             "differential correspondence on dyadic axes (single calls in every call style, chained histories, sessions of "
+             "independent calls); free-mode monitors for arange rounding")
 RULE = ("dyadic axes of 1-40 points x every width 1..2n+3 x three positions x step attribute present/absent; crop and "
         "extend requests on, between and beyond coordinates with all closedness flags; cells with NaN / +-inf / fill-equal "
         "values over 1-d, 2-d and 3-d layouts; histories of 2-4 crop_dim / extend_dim / adjust_dim_width calls on "
-        "the previous output; get_dim_step options; decimal-step monitors; "
+        "the previous output; get_dim_step options; decimal-step monitors; every public function x every number of "
+        "leading optional arguments passed positionally in the documented order x every flag / option combination; "
+        "11 construction paths x 3 dimension names x 4 layouts; pairwise option products; offsets of 2^-20 .. 2^-40 "
+        "relative size around every comparison at magnitudes 2^-7 .. 2^20; axis lengths / widths 16 .. 1025; sessions "
+        "of 3-5 independent calls (x, a neighbour of x, x again) with reused-and-changed arrays (in place, shallow / "
+        "deep copy, assign_coords), poisoned results, arguments snapshotted (values, coordinates, attributes) and "
+        "earlier results read again; every coordinate / lattice point of non-dyadic axes (steps 0.01, 0.1, 1/3, 0.29); "
         "non-trivial = the implementation returned an array; distinct = distinct (operation, input)")
-TRUSTED = ["xarray sel / reindex, pandas slice_indexer, numpy arange / diff / mean / isclose (modelled, validated by correspondence)",
+TRUSTED = ["the documented parameter order written down in harness/c17_calls.py DOCUMENTED (it must agree with the model's "
+           "tables: any disagreement shows as a mismatch on the unchanged tree)",
+           "xarray sel / reindex, pandas slice_indexer, numpy arange / diff / mean / isclose (modelled, validated by correspondence)",
            "symbolic tracer stubs of an xarray.DataArray with one range dimension (harness/props/c17.py _kernel_stubs)"]
 ASSUMPTIONS = ["binary64 arithmetic is exact on the dyadic axes used for the exact comparisons",
                "axes strictly increasing with unique coordinates, step > 0 (the property's quantifier: regular axes); the "
@@ -54,180 +78,98 @@ ASSUMPTIONS = ["binary64 arithmetic is exact on the dyadic axes used for the exa
 NOT_COMPARED = ["error messages (only the error class)", "`start` / `stop` attributes written by extend_dim",
                 "dtype of the data (an integer array may come back as float; cell values are compared)",
                 "extension of a one-point axis that has no step attribute (the estimated step is NaN)",
+                "adjust_dim_range (not part of the property; its signature is not in the table obligation either)",
+                "whether a result is a view or a copy of its argument (crop_dim returns xarray views, adjust_dim_width with "
+                "the current width returns its argument): a result is read again after later calls only while the caller "
+                "has not written into its argument or into a result of the same argument",
+                "auxiliary (non-index) coordinates, the array's name and attributes on the result",
+                "eps passed as numpy.float32 (end - eps would be float32 arithmetic); calls that Python itself rejects "
+                "(too many positional arguments, a parameter given twice)",
                 "non-dyadic axes: only length, placement of the data, kept coordinates and lattice continuation within "
                 "tolerance are checked on the real output (the rational model cannot exhibit arange rounding)"]
 
-LAYOUTS = ["1d", "2d-first", "2d-last", "3d-mid"]
-OTHER_SHAPE = {"1d": (), "2d-first": (3,), "2d-last": (3,), "3d-mid": (2, 2)}
-SPECIAL = {"nan": math.nan, "inf": math.inf, "-inf": -math.inf}
-
-
-def _ncols(layout):
-    k = 1
-    for d in OTHER_SHAPE[layout]:
-        k *= d
-    return k
-
-
-# ------------------------------------------------------------------ cells: numbers, NaN, +-inf
-def _cell_float(c):
-    """cell of the protocol (int | rational string | "nan" | "inf" | "-inf") -> float"""
-    if isinstance(c, str):
-        return SPECIAL[c] if c in SPECIAL else float(frac(c))
-    return float(c)
-
-
-def _cell_of(x):
-    x = float(x)
-    if x != x:
-        return "nan"
-    if x in (math.inf, -math.inf):
-        return "inf" if x > 0 else "-inf"
-    return int(x) if x.is_integer() else rat(x)
-
-
-def _norm_data(data, layout):
-    """every datum as the list of its cells over the other dimensions (a scalar is the same cell everywhere)"""
-    k = _ncols(layout)
-    out = []
-    for d in data:
-        d = list(d) if isinstance(d, (list, tuple)) else [d] * k
-        if len(d) != k:
-            raise ValueError("datum does not fit the layout")
-        out.append(d)
-    return out
+LAYOUTS = calls.LAYOUTS
+OTHER_SHAPE = calls.OTHER_SHAPE
+SPECIAL = calls.SPECIAL
+_ncols = calls.ncols
+_cell_float = calls.cell_float
+_cell_of = calls.cell_of
+_norm_data = calls.norm_data
 
 
 # ------------------------------------------------------------------ implementations
-def _mk(coords, data, step_attr, layout="1d", int_axis=False, int_data=False):
-    import numpy as np
-    import xarray as xr
-    from soundevent import arrays
-    c = np.asarray(coords, dtype="int64" if int_axis else float)
-    var = arrays.create_time_dim_from_array(c, step=step_attr)
-    k = _ncols(layout)
-    m = np.array([[_cell_float(x) for x in row] for row in _norm_data(data, layout)], dtype=float).reshape(len(data), k)
-    if int_data:
-        m = m.astype("int64")
-    if layout == "1d":
-        return xr.DataArray(m[:, 0].copy(), dims=["time"], coords={"time": var})
-    if layout == "2d-first":
-        return xr.DataArray(m.copy(), dims=["time", "other"], coords={"time": var, "other": np.array([10.0, 20.0, 30.0])})
-    if layout == "2d-last":
-        return xr.DataArray(m.T.copy(), dims=["other", "time"], coords={"time": var, "other": np.array([10.0, 20.0, 30.0])})
-    return xr.DataArray(m.reshape(len(data), 2, 2).transpose(1, 0, 2).copy(), dims=["a", "time", "b"],
-                        coords={"time": var, "b": np.array([7.0, 9.0])})
+# Arrays are built by harness/c17_calls.py (several construction paths, verified content); the functions under test
+# are called by `calls.invoke` the way the request says (keywords, or the first k optional arguments positionally
+# in the documented order).
+def _mk(coords, data, step_attr, layout="1d", int_axis=False, int_data=False, dim="time", build="time_dim"):
+    return calls.make_array(coords, data, step_attr, layout, int_axis, int_data, dim, build)
 
 
-def _out(arr, layout="1d"):
-    import numpy as np
-    if tuple(sorted(arr.dims)) != tuple(sorted({"1d": ["time"], "2d-first": ["time", "other"],
-                                                "2d-last": ["time", "other"], "3d-mid": ["a", "time", "b"]}[layout])):
-        return {"raise": "crash:dimensions-changed"}
-    for d, n in zip(("other", "a", "b"), (3, 2, 2)):
-        if d in arr.dims and arr.sizes[d] != n:
-            return {"raise": "crash:other-dimension-resized"}
-    cs = [float(c) for c in np.asarray(arr.coords["time"].values)]
-    order = {"1d": ("time",), "2d-first": ("time", "other"), "2d-last": ("time", "other"), "3d-mid": ("time", "a", "b")}[layout]
-    k = _ncols(layout)
-    v = np.asarray(arr.transpose(*order).values, dtype=float)
-    if v.size != len(cs) * k:
-        return {"raise": "crash:coords-data-length"}
-    v = v.reshape(len(cs), k)
-    data = [[_cell_of(x) for x in row] for row in v]
-    return {"val": {"coords": [rat(c) for c in cs], "data": [row[0] if k == 1 else row for row in data]}}
+def _out(arr, layout="1d", dim="time"):
+    return calls.out_of(arr, layout, dim)
 
 
-def _arr_of(inp):
-    return _mk(fl(inp["coords"]), inp["data"], f(inp.get("step_attr")), inp.get("layout", "1d"), inp.get("int_axis", False),
-               inp.get("int_data", False))
+_arr_of = calls.array_of
 
 
-def _snapshot(arr):
-    import numpy as np
-    return (np.asarray(arr.coords["time"].values).tobytes(), np.asarray(arr.values, dtype=float).tobytes(), tuple(arr.dims))
+def _snapshot(arr, dim="time"):
+    return calls.snapshot(arr, dim)
 
 
-def _observed(arr, fn, layout):
-    """call the operation; an argument that comes back changed is reported, not hidden"""
-    before = _snapshot(arr)
+def _observed(arr, fn, layout, dim="time"):
+    """call the operation; an argument that comes back changed (values, coordinates, attributes) is reported"""
+    before = _snapshot(arr, dim)
     r = fn(arr)
-    if _snapshot(arr) != before:
+    if _snapshot(arr, dim) != before:
         return {"raise": "crash:input-array-mutated"}
-    return _out(r, layout)
+    return _out(r, layout, dim)
 
 
 def _q(inp, key):
-    import numpy as np
-    v = f(inp.get(key))
-    if v is None:
-        return None
-    ty = inp.get("argty")
-    if (inp.get("int_axis") or ty == "int") and v == int(v):
-        return int(v)
-    if ty == "np":
-        return np.float64(v)
-    return v
+    return calls._num(inp, key)
 
 
-def _fill_kw(inp):
-    return {} if inp.get("fill") is None else {"fill_value": _cell_float(inp["fill"])}
+def _fn(fname):
+    """the function under test, looked up when it is called (a renamed / removed function is an observation)"""
+    from soundevent.arrays import operations as ops
+    from soundevent.arrays import dimensions as dims
+    return getattr(dims if fname in ("get_dim_step", "estimate_dim_step") else ops, fname)
 
 
-def _flag_kw(inp):
-    kw = {}
-    if inp.get("eps") is not None:
-        kw["eps"] = f(inp["eps"])
-    if inp.get("lc") is not None:
-        kw["left_closed"] = inp["lc"]
-    if inp.get("rc") is not None:
-        kw["right_closed"] = inp["rc"]
-    return kw
+def _call(fname, arr, inp):
+    return calls.invoke(fname, _fn(fname), arr, inp)
 
 
 @guarded
 def _impl_crop(inp):
-    from soundevent.arrays import operations as ops
-    return _observed(_arr_of(inp), lambda a: ops.crop_dim(a, "time", start=_q(inp, "start"), stop=_q(inp, "stop"),
-                                                          **_flag_kw(inp)), inp.get("layout", "1d"))
+    return _observed(_arr_of(inp), lambda a: _call("crop_dim", a, inp), inp.get("layout", "1d"), inp.get("dim", "time"))
 
 
 @guarded
 def _impl_extend(inp):
-    from soundevent.arrays import operations as ops
-    return _observed(_arr_of(inp), lambda a: ops.extend_dim(a, "time", start=_q(inp, "start"), stop=_q(inp, "stop"),
-                                                            **_fill_kw(inp), **_flag_kw(inp)), inp.get("layout", "1d"))
+    return _observed(_arr_of(inp), lambda a: _call("extend_dim", a, inp), inp.get("layout", "1d"), inp.get("dim", "time"))
 
 
 def _call_width(arr, inp):
-    import numpy as np
-    from soundevent.arrays import operations as ops
-    fn = inp["fn"]
-    w = np.int64(inp["w"]) if inp.get("argty") == "np" else inp["w"]
-    pos = {} if inp.get("pos") is None else {"position": inp["pos"]}
-    if fn == "adjust":
-        return ops.adjust_dim_width(arr, "time", w, **_fill_kw(inp), **pos)
-    if fn == "crop":
-        return ops.crop_dim_width(arr, "time", w, **pos)
-    return ops.extend_dim_width(arr, "time", w, **_fill_kw(inp), **pos)
+    return _call(calls.WIDTH_FN[inp["fn"]], arr, inp)
 
 
 @guarded
 def _impl_width(inp):
-    return _observed(_arr_of(inp), lambda a: _call_width(a, inp), inp.get("layout", "1d"))
+    return _observed(_arr_of(inp), lambda a: _call_width(a, inp), inp.get("layout", "1d"), inp.get("dim", "time"))
+
+
+def _step_fname(inp):
+    return "estimate_dim_step" if inp.get("via") == "estimate" else "get_dim_step"
 
 
 @guarded
 def _impl_dim_step(inp):
-    from soundevent.arrays import dimensions as dims
-    arr = _mk(fl(inp["coords"]), [0] * len(inp["coords"]), f(inp.get("step_attr")))
-    kw = {k: f(inp[k]) for k in ("rtol", "atol") if inp.get(k) is not None}
-    kw.update({k: inp[k] for k in ("check_tolerance", "estimate_step") if inp.get(k) is not None})
+    arr = _mk(fl(inp["coords"]), [0] * len(inp["coords"]), f(inp.get("step_attr")), build=inp.get("build", "time_dim"))
     if inp.get("via") == "estimate":
-        kw.pop("estimate_step", None)
-        r = float(dims.estimate_dim_step(arr.coords["time"].data, **kw))
+        r = float(_call("estimate_dim_step", arr.coords["time"].data, {k: v for k, v in inp.items() if k != "estimate_step"}))
     else:
-        r = float(dims.get_dim_step(arr, "time", **kw))
+        r = float(_call("get_dim_step", arr, inp))
     return {"val": None if r != r else rat(r)}
 
 
@@ -247,26 +189,26 @@ def _impl_dim_range(inp):
 
 
 # ---- histories: every call works on the array the previous call returned (attributes and all)
-def _apply_step(arr, st):
-    from soundevent.arrays import operations as ops
+def _apply_step(arr, st, dim="time"):
     fn = st["fn"]
+    st = dict(st, dim=dim)
     if fn == "crop_dim":
-        return ops.crop_dim(arr, "time", start=_q(st, "start"), stop=_q(st, "stop"), **_flag_kw(st))
+        return _call("crop_dim", arr, st)
     if fn == "extend_dim":
-        return ops.extend_dim(arr, "time", start=_q(st, "start"), stop=_q(st, "stop"), **_fill_kw(st), **_flag_kw(st))
-    return _call_width(arr, {"fn": "adjust", "w": st["w"], "fill": st.get("fill"), "pos": st.get("pos"), "argty": st.get("argty")})
+        return _call("extend_dim", arr, st)
+    return _call("adjust_dim_width", arr, st)
 
 
 @guarded
 def _impl_history(inp):
-    layout = inp.get("layout", "1d")
+    layout, dim = inp.get("layout", "1d"), inp.get("dim", "time")
     arr = _arr_of(inp)
     outs = []
     for st in inp["steps"]:
         try:
-            before = _snapshot(arr)
-            r = _apply_step(arr, st)
-            o = {"raise": "crash:input-array-mutated"} if _snapshot(arr) != before else _out(r, layout)
+            before = _snapshot(arr, dim)
+            r = _apply_step(arr, st, dim)
+            o = {"raise": "crash:input-array-mutated"} if _snapshot(arr, dim) != before else _out(r, layout, dim)
         except Exception as e:  # noqa: BLE001 - an exception of the real code is the observation of that call
             o = canon_exc(e)
         outs.append(o)
@@ -303,7 +245,8 @@ def _free_axis(inp):
     import numpy as np
     a0, step, n = f(inp["a0"]), f(inp["step"]), inp["n"]
     coords = a0 + step * np.arange(n)
-    return coords, _mk(coords, _free_data(inp), step if inp["attr"] else None, inp.get("layout", "1d"))
+    return coords, _mk(coords, _free_data(inp), step if inp["attr"] else None, inp.get("layout", "1d"),
+                       build=inp.get("build", "time_dim"))
 
 
 def _free_result(o, coords):
@@ -315,8 +258,8 @@ def _free_result(o, coords):
 @guarded
 def _impl_width_free(inp):
     coords, arr = _free_axis(inp)
-    o = _observed(arr, lambda a: _call_width(a, {"fn": "adjust", "w": inp["w"], "fill": inp["fill"], "pos": inp["pos"]}),
-                  inp.get("layout", "1d"))
+    req = {"fn": "adjust", "w": inp["w"], "fill": inp["fill"], "pos": inp["pos"], "call": inp.get("call"), "argty": inp.get("argty")}
+    o = _observed(arr, lambda a: _call_width(a, req), inp.get("layout", "1d"))
     return _free_result(o, coords)
 
 
@@ -371,16 +314,13 @@ def _holds_width_free(ctx, inp, out):
 
 @guarded
 def _impl_extend_free(inp):
-    from soundevent.arrays import operations as ops
     coords, arr = _free_axis(inp)
     step = f(inp["step"])
     start = float(coords[0]) - inp["kl2"] / 2 * step
     stop = float(coords[-1]) + inp["kr2"] / 2 * step
-    if inp.get("argty") == "np":       # the same numbers as numpy scalars
-        import numpy as np
-        start, stop = np.float64(start), np.float64(stop)
-    o = _observed(arr, lambda a: ops.extend_dim(a, "time", start=start, stop=stop, fill_value=_cell_float(inp["fill"]),
-                                                left_closed=inp["lc"], right_closed=inp["rc"]), inp.get("layout", "1d"))
+    req = {"start": rat(start), "stop": rat(stop), "fill": inp["fill"], "lc": inp["lc"], "rc": inp["rc"],
+           "argty": inp.get("argty"), "call": inp.get("call")}       # argty "np": the same numbers as numpy scalars
+    o = _observed(arr, lambda a: _call("extend_dim", a, req), inp.get("layout", "1d"))
     return _free_result(o, coords)
 
 
@@ -413,17 +353,14 @@ def _holds_extend_free(ctx, inp, out):
 # ---- crop in free mode: decimal axes, requested ends half-way between coordinates or on them
 @guarded
 def _impl_crop_free(inp):
-    from soundevent.arrays import operations as ops
     coords, arr = _free_axis(inp)
     step = f(inp["step"])
     start = float(coords[inp["i"]]) - (step / 2 if inp["half_l"] else 0.0)
     stop = float(coords[inp["j"]]) + (step / 2 if inp["half_r"] else 0.0)
     start, stop = max(start, float(coords[0])), min(stop, float(coords[-1]))
-    if inp.get("argty") == "np":
-        import numpy as np
-        start, stop = np.float64(start), np.float64(stop)
-    o = _observed(arr, lambda a: ops.crop_dim(a, "time", start=start, stop=stop, left_closed=inp["lc"], right_closed=inp["rc"]),
-                  inp.get("layout", "1d"))
+    req = {"start": rat(start), "stop": rat(stop), "lc": inp["lc"], "rc": inp["rc"], "argty": inp.get("argty"),
+           "call": inp.get("call")}
+    o = _observed(arr, lambda a: _call("crop_dim", a, req), inp.get("layout", "1d"))
     if is_err(o):
         return o
     return {"val": {"coords": fl(o["val"]["coords"]), "data": o["val"]["data"], "orig": [float(c) for c in coords],
@@ -447,24 +384,160 @@ def _holds_crop_free(ctx, inp, out):
 _NOOP = dict(model_op="noop", to_model=lambda inp: {}, compare=lambda inp, io, mo: None, mode="tolerance")
 
 
-def _strip(keys):
-    def to_model(inp):
-        out = {k: v for k, v in inp.items() if k not in keys}
-        if "data" in out:     # the model sees every datum as the list of its cells over the other dimensions
-            out["data"] = _norm_data(out["data"], inp.get("layout", "1d"))
-        return out
-    return to_model
+def _tm(fname, drop=()):
+    return lambda inp: calls.to_model(fname, inp, drop)
 
 
-_HARNESS_KEYS = {"layout", "int_axis", "int_data", "argty"}
+def _tm_width(inp):
+    return calls.to_model(calls.WIDTH_FN.get(inp.get("fn"), "adjust_dim_width"), inp)
+
+
+def _tm_history(inp):
+    out = calls.to_model("crop_dim", {k: v for k, v in inp.items() if k != "steps"})
+    out["steps"] = [calls.to_model(_SESSION_FN[st["fn"]], st) for st in inp["steps"]]
+    return out
+
+
+# ---- sessions: independent calls in one process (harness/history.py): the same array with other options, the same
+# axis with other data, an array object that is changed and used again, results the caller writes into, results
+# read again after later calls.  Every call is judged by the model of that call (`runSession`, theorem
+# C17_session_pointwise); the replay is the whole session.
+_SESSION_FN = {"crop_dim": "crop_dim", "extend_dim": "extend_dim", "width": "adjust_dim_width"}
+H_REUSE = ("inplace", "shallow_copy", "deep_copy", "assign_coords")
+
+
+class _Live:
+    """a returned array kept alive, with the state of its argument's family when it was returned"""
+    def __init__(self, arr, fam):
+        self.arr, self.fam, self.gen, self.first = arr, fam, fam["gen"], None
+
+
+def _s_build(inp):
+    return {"arr": _arr_of(inp), "inp": inp, "fam": {"gen": 0}}
+
+
+def _s_call(args):
+    inp = args["inp"]
+    return _Live(_call(_SESSION_FN[inp["fn"]], args["arr"], inp), args["fam"])
+
+
+def _s_canon(inp, args, res):
+    if res.first is not None and res.gen != res.fam["gen"]:
+        # the caller has since written into the argument (or into a result of its family): selections of xarray are
+        # views of the argument's buffers, so this result may legitimately have followed; it is not read again
+        return res.first
+    out = _out(res.arr, inp.get("layout", "1d"), inp.get("dim", "time"))
+    if res.first is None:
+        res.first = out
+    return out
+
+
+def _s_snapshot(args):
+    return _snapshot(args["arr"], args["inp"].get("dim", "time"))
+
+
+def _same_shape(a, b):
+    return all(a.get(k, d) == b.get(k, d) for k, d in (("layout", "1d"), ("dim", "time"), ("int_axis", False), ("int_data", False))) \
+        and len(a["coords"]) == len(b["coords"]) and not a.get("f32_axis") and not b.get("f32_axis")
+
+
+def _s_modify(args, inp, how):
+    """the array object of the previous step made to carry this step's content: written into in place, through a
+    shallow / deep copy, or by assign_coords - nothing an earlier call remembered about the object (or about its
+    buffers, its attribute dictionaries) may survive the change"""
+    import copy
+    import numpy as np
+    import xarray as xr
+    old = args["inp"]
+    if not _same_shape(old, inp) or (old.get("build") == "aux") != (inp.get("build") == "aux"):
+        return None
+    dim, layout = inp.get("dim", "time"), inp.get("layout", "1d")
+    arr = args["arr"]
+    fresh = calls.make_array(fl(inp["coords"]), inp["data"], f(inp.get("step_attr")), layout, inp.get("int_axis", False),
+                             inp.get("int_data", False), dim, "plain")
+    c = np.asarray(fresh.coords[dim].values)
+    attrs = {} if inp.get("step_attr") is None else {"step": f(inp["step_attr"])}
+    if how == "deep_copy":
+        arr = copy.deepcopy(arr)
+    elif how == "shallow_copy":
+        arr = arr.copy(deep=False)
+    if how == "assign_coords":
+        arr = arr.assign_coords({dim: xr.Variable((dim,), c, attrs=attrs)}).copy(data=np.asarray(fresh.transpose(*arr.dims).values))
+    elif how == "inplace" and np.asarray(arr.coords[dim].values).tobytes() == c.tobytes() \
+            and arr.coords[dim].dtype == c.dtype:
+        live = arr.coords[dim].attrs          # the same index object; only its attributes (the step) change
+        live.pop("step", None)
+        live.update(attrs)
+    else:
+        arr.coords[dim] = xr.Variable((dim,), c, attrs=attrs)
+    if how != "assign_coords":
+        try:
+            arr.data[...] = np.asarray(fresh.transpose(*arr.dims).values)     # the same buffer, new content
+        except ValueError:       # a read-only buffer: replace it
+            arr.data = np.asarray(fresh.transpose(*arr.dims).values).copy()
+    args["fam"]["gen"] += 1
+    return {"arr": arr, "inp": inp, "fam": args["fam"]}
+
+
+def _s_poison(res):
+    """the caller edits what it got back: data, coordinate attributes, array attributes"""
+    arr = res.arr
+    res.fam["gen"] += 1
+    try:
+        if arr.size:
+            arr.data[...] = 31337
+    except ValueError:
+        pass
+    for cn in list(arr.coords):
+        arr.coords[cn].attrs["step"] = 123.456
+        arr.coords[cn].attrs["poisoned"] = True
+    arr.attrs["step"] = 654.321
+    return True
+
+
+def _session_nontrivial(inp, out):
+    return isinstance(out, dict) and "steps" in out and sum(1 for o in out["steps"] if not is_err(o)) >= 2
+
+
+_SESSION_DRIVER = history.history_op("session", Op("call", None), _s_build, _s_call, _s_canon, snapshot=_s_snapshot,
+                                     modify=_s_modify, poison=_s_poison)
+
+
+def _holds_session(ctx, h, io):
+    if is_err(io):
+        return f"the session driver raised {io['raise']}"
+    for n in io.get("notes", []):
+        if n["what"] == "argument-mutated":
+            return f"call {n['step']}: the call changed its argument in place (values, coordinates or attributes)"
+        if n["what"] == "result-changed-later":
+            return (f"the result returned by call {n['step']} changed after later calls "
+                    f"(was {jkey(n['first'])[:160]} now {jkey(n['now'])[:160]})")
+    mo = ctx.model("session", {"calls": [dict(calls.to_model(_SESSION_FN[st["inp"]["fn"]], st["inp"]), fn=st["inp"]["fn"])
+                                         for st in h["seq"]]})
+    if is_err(mo):
+        return "the model rejects the session: %s" % mo["raise"]
+    trail = []
+    for k, (st, out, m) in enumerate(zip(h["seq"], io["steps"], mo["val"])):
+        trail.append(st["inp"]["fn"] + ":" + ("reuse:" + str(st["reuse"]) if st.get("reuse") else "fresh") + ("+poison" if st.get("poison") else ""))
+        o = {k2: v for k2, v in out.items() if k2 != "trace"} if isinstance(out, dict) else out
+        if o != m:
+            return (f"call {k} of the session ({' -> '.join(trail)}) disagrees with the model of that call on the array it was "
+                    f"given: impl={jkey(o)[:200]} model={jkey(m)[:200]}")
+    return None
+
+
+_HARNESS_KEYS = calls.HARNESS_KEYS
 
 OPS = {
-    "crop_dim": Op("crop_dim", _impl_crop, to_model=_strip(_HARNESS_KEYS | {"step_attr"})),
-    "extend_dim": Op("extend_dim", _impl_extend, to_model=_strip(_HARNESS_KEYS)),
-    "width": Op("width", _impl_width, to_model=_strip(_HARNESS_KEYS)),
-    "history": Op("history", _impl_history, to_model=_strip(_HARNESS_KEYS), compare=_cmp_history,
+    "crop_dim": Op("crop_dim", _impl_crop, to_model=_tm("crop_dim", {"step_attr"})),
+    "extend_dim": Op("extend_dim", _impl_extend, to_model=_tm("extend_dim")),
+    "width": Op("width", _impl_width, to_model=_tm_width),
+    "history": Op("history", _impl_history, to_model=_tm_history, compare=_cmp_history,
                   nontrivial=lambda inp, out: not is_err(out) and len(out["val"]) >= 2 and not is_err(out["val"][1])),
-    "dim_step": Op("dim_step", _impl_dim_step, to_model=_strip({"via"}), compare=_cmp_dim_step, mode="round-once"),
+    "session": Op("session", _SESSION_DRIVER.impl, holds=_holds_session, compare=lambda inp, io, mo: None, no_model=True,
+                  nontrivial=_session_nontrivial),
+    "dim_step": Op("dim_step", _impl_dim_step, to_model=lambda inp: calls.to_model(_step_fname(inp), inp, {"build"}),
+                   compare=_cmp_dim_step, mode="round-once"),
     "dim_range": Op("dim_range", _impl_dim_range),
     "width_free": Op("width_free", _impl_width_free, holds=_holds_width_free, **_NOOP),
     "extend_free": Op("extend_free", _impl_extend_free, holds=_holds_extend_free, **_NOOP),
@@ -504,6 +577,35 @@ def _defaults(ctx):
     ctx.obligation("signature-defaults", src, {"op": "crop_dim"})
 
 
+def _signature_order(ctx):
+    """Tie 1: the positional order of the public signatures.  The parameters a caller can pass positionally
+    (POSITIONAL_ONLY / POSITIONAL_OR_KEYWORD, in order) are re-extracted with inspect.signature and must start with the
+    model's table (`SE.Axis.sigCropDim` ...: the order `bindArgs` uses for the positional arguments of a request).
+    Keyword-only parameters cannot be reached positionally: their order is free.  Parameters after the documented ones
+    must be optional.  One obligation per function; a vanished function is a broken obligation, not a crash."""
+    P = inspect.Parameter
+    for fname, table in calls.MODEL_TABLE.items():
+        name = "signature-order:" + fname
+        meta = {"op": "dim_step" if fname in ("get_dim_step", "estimate_dim_step") else
+                "width" if fname.endswith("_width") else fname}
+        try:
+            params = list(inspect.signature(_fn(fname)).parameters.values())
+        except Exception as e:  # noqa: BLE001
+            ctx.pre_failed.append(name)
+            ctx.fail("obligation", name, detail=f"the signature of {fname} cannot be read: {e!r}", extra=meta)
+            continue
+        positional = [p.name for p in params if p.kind in (P.POSITIONAL_ONLY, P.POSITIONAL_OR_KEYWORD)]
+        lead, opts = calls.DOCUMENTED[fname]
+        documented = lead + [o[0] for o in opts]
+        extra = [p.name for p in params if p.name not in documented and p.default is P.empty
+                 and p.kind not in (P.VAR_POSITIONAL, P.VAR_KEYWORD)]
+        if extra:
+            ctx.fail("obligation", name, detail=f"{fname} has new required parameters {extra}", extra=meta)
+        lit = "[" + ", ".join('"%s"' % n.replace('"', "") for n in positional) + "]"
+        ctx.obligation(name, f"example : SE.Axis.sigOK SE.Axis.{table} {lit} = true := by decide", meta)
+        ctx.tally("signature-order:" + fname)
+
+
 # ------------------------------------------------------------------ tie 1b: the numeric kernels of crop_dim / extend_dim
 _DIM = "time"
 _FLAGS = [(True, False), (False, True), (True, True), (False, False)]
@@ -517,15 +619,44 @@ def _kernel_stubs():
     import numpy
     from ..symtrace import Sym, Untraceable
 
-    sy = {n: Sym.var(n) for n in ("cs", "ce", "step", "s", "e", "eps")}
+    class HSym(Sym):
+        """a symbolic argument that may be put into a dictionary key (identity hash): a memo keyed by the full input
+        misses on every traced call (each call has its own array token, see `tobytes`), so the trace runs through the
+        computation itself"""
+        __slots__ = ()
+
+        def __hash__(self):
+            return id(self)
+
+    def hvar(n):
+        v = Sym.var(n)
+        return HSym(v.e, v.f)
+
+    sy = {n: hvar(n) for n in ("cs", "ce", "step", "s", "e", "eps")}
+    tokens = itertools.count(1)
+
+    class SBytes:
+        """what identifies the content of a symbolic array in a cache key: unique per array object"""
+        def __init__(self, tok, what):
+            self.key = ("symbolic-array-%d-%s" % (tok, what)).encode()
+
+        def tobytes(self, *a, **k):
+            return self.key
+
+    class SData(SBytes):
+        dtype = numpy.dtype("float64")
 
     class SArr:
         """coordinate values: the original ones and / or generated pieces, in order"""
         dtype = numpy.dtype("float64")
         ndim = 1
 
-        def __init__(self, pieces):
+        def __init__(self, pieces, tok=0):
             self.pieces = list(pieces)
+            self.tok = tok
+
+        def tobytes(self, *a, **k):
+            return ("symbolic-coords-%d-%r" % (self.tok, self.pieces)).encode()
 
         def __getitem__(self, k):
             if isinstance(k, int) and not isinstance(k, bool):
@@ -581,8 +712,9 @@ def _kernel_stubs():
         dims = (_DIM,)
         __hash__ = None
 
-        def __init__(self):
+        def __init__(self, tok=0):
             self.attrs = {"step": sy["step"], "units": "s"}
+            self.tok = tok
 
         def __ge__(self, v):
             return SMask(lo=v)
@@ -590,11 +722,11 @@ def _kernel_stubs():
         def __le__(self, v):
             return SMask(hi=v)
 
-        data = property(lambda self: SArr([("orig",)]))
-        values = property(lambda self: SArr([("orig",)]))
+        data = property(lambda self: SArr([("orig",)], self.tok))
+        values = property(lambda self: SArr([("orig",)], self.tok))
 
         def to_numpy(self):
-            return SArr([("orig",)])
+            return SArr([("orig",)], self.tok)
 
         def min(self, *a, **k):
             return sy["cs"]
@@ -603,11 +735,11 @@ def _kernel_stubs():
             return sy["ce"]
 
         def __getitem__(self, k):
-            return SArr([("orig",)])[k]
+            return SArr([("orig",)], self.tok)[k]
 
     class SMap:
-        def __init__(self):
-            self.c = SCoord()
+        def __init__(self, tok=0):
+            self.c = SCoord(tok)
 
         def __getitem__(self, key):
             if key != _DIM:
@@ -624,20 +756,33 @@ def _kernel_stubs():
         """what the label slice / the reindexing returned"""
         def __init__(self, kind, payload):
             self.kind, self.payload = kind, payload
-            self.coords = SMap()
+            self.coords = SMap(next(tokens))
             self.attrs = {}
 
         def __getitem__(self, key):
             return self.coords[key]
 
+        def copy(self, *a, **k):       # a cached / returned copy of the result is the result
+            return self
+
     class SDataArray:
         dims = (_DIM,)
         ndim = 1
+        name = None
+        dtype = numpy.dtype("float64")
 
         def __init__(self):
-            self.coords = SMap()
-            self.indexes = SMap()
+            self.tok = next(tokens)
+            self.coords = SMap(self.tok)
+            self.indexes = SMap(self.tok)
             self.attrs = {}
+            self.shape = ("symbolic-length-%d" % self.tok,)      # usable in a key, not in arithmetic
+
+        values = property(lambda self: SData(self.tok, "values"))
+        data = property(lambda self: SData(self.tok, "values"))
+
+        def copy(self, *a, **k):
+            return self
 
         def __getitem__(self, key):
             return self.coords[key]
@@ -890,7 +1035,7 @@ def _crop_cases(ctx, n_axes):
             b = _base(rng, coords, step)
             b.update({"start": rat(s) if rng.random() < 0.85 else None, "stop": rat(e) if rng.random() < 0.85 else None,
                       "lc": rng.random() < 0.5, "rc": rng.random() < 0.5,
-                      "eps": rng.choice([None, None, rat(Fraction(1, 1 << 20)), rat(step / 8)])})
+                      "eps": rng.choice([None, None, None, rat(Fraction(1, 1 << 20)), rat(step / 8), rat(step / 2)])})
             if rng.random() < 0.1:      # the closedness defaults [start, stop)
                 b["lc"] = b["rc"] = None
             yield b
@@ -939,7 +1084,7 @@ def _extend_cases(ctx, n_axes):
                         b = _base(rng, coords, step, fill=fill)
                         b.update({"start": rat(coords[0] - (kl + fo) * step), "stop": rat(coords[-1] + (kr + go) * step),
                                   "fill": fill, "lc": lc, "rc": rc,
-                                  "eps": rng.choice([None, None, rat(Fraction(1, 1 << 20)), rat(step / 8)])})
+                                  "eps": rng.choice([None, None, None, rat(Fraction(1, 1 << 20)), rat(step / 8), rat(step / 2)])})
                         if rng.random() < 0.1:
                             b["start"] = None
                         if rng.random() < 0.1:
@@ -1056,12 +1201,18 @@ def _history_cases(ctx, count):
         fill = rng.choice(FILLS)
         b = _base(rng, coords, step, attr=True if rng.random() < 0.7 else None, fill=fill)
         b.pop("argty", None)
+        if rng.random() < 0.3:
+            b["build"] = rng.choice(calls.BUILDS[1:])
+        if rng.random() < 0.2:
+            b["dim"] = rng.choice(calls.DIMS[1:])
         kmin, kmax, steps = 0, n - 1, []
         for kind in shape:
             got = _history_step(rng, kind, kmin, kmax, a0, step, rng.choice([fill, fill, rng.choice(FILLS)]))
             st, kmin, kmax = got
             if rng.random() < 0.1:
                 st["argty"] = rng.choice(["np", "int"])
+            if rng.random() < 0.15:
+                st["call"] = rng.randint(0, calls.n_optional(_SESSION_FN[st["fn"]]))
             steps.append(st)
             if kmax < kmin or (kmax == kmin and b["step_attr"] is None):
                 break
@@ -1113,6 +1264,11 @@ def _step_cases(ctx):
             exact = float(mean) == mean and inp["rtol"] is not None and inp["atol"] is not None
             if not exact and any(abs(abs(d - mean) - tol) <= Fraction(1, 1 << 30) * max(1, tol) for d in ds):
                 continue
+        if rng.random() < 0.3:
+            inp["call"] = rng.randint(0, calls.n_optional(_step_fname(inp)))
+            ctx.tally(f"call:{_step_fname(inp)}:{inp['call']}")
+        if rng.random() < 0.2:
+            inp["build"] = rng.choice(calls.BUILDS[1:])
         yield inp
 
 
@@ -1153,7 +1309,8 @@ def _width_free_cases(ctx):
         yield {"a0": rat(rng.choice(FREE_STARTS + [rng.uniform(-3, 30)])),
                "step": rat(rng.choice(FREE_STEPS + [rng.uniform(1e-4, 2)])), "n": n, "attr": n < 2 or rng.random() < 0.5,
                "w": rng.randint(1, 2 * n + 3), "pos": rng.choice(["start", "end", "center"]), "fill": fill,
-               "layout": rng.choice(LAYOUTS), "data": _free_cells(rng, n, fill)}
+               "layout": rng.choice(LAYOUTS), "data": _free_cells(rng, n, fill), "call": rng.choice([None, None, None, 0, 1, 2, 3, "kwall"]),
+               "argty": "np" if rng.random() < 0.2 else None, "build": rng.choice(["time_dim", "time_dim"] + calls.BUILDS[1:])}
 
 
 def _inside_quantifier(c):
@@ -1188,7 +1345,8 @@ def _extend_free_raw(ctx):
                "step": rat(rng.choice(FREE_STEPS + [rng.uniform(1e-3, 2)])), "n": n, "attr": n < 2 or rng.random() < 0.6,
                "kl2": rng.randint(0, 12), "kr2": rng.randint(0, 12), "lc": rng.random() < 0.5, "rc": rng.random() < 0.5,
                "fill": fill, "layout": rng.choice(LAYOUTS), "data": _free_cells(rng, n, fill),
-               "argty": "np" if rng.random() < 0.3 else None}
+               "argty": "np" if rng.random() < 0.3 else None, "call": rng.choice([None, None, None, 2, 4, 6, "kwall"]),
+               "build": rng.choice(["time_dim", "time_dim"] + calls.BUILDS[1:])}
 
 
 def _crop_free_cases(ctx):
@@ -1201,7 +1359,386 @@ def _crop_free_cases(ctx):
         yield {"a0": rat(rng.choice(FREE_STARTS + [-1.7, rng.uniform(-3, 30)])), "step": rat(rng.choice(steps + [rng.uniform(1e-3, 2)])),
                "n": n, "attr": rng.random() < 0.5, "i": i, "j": j, "half_l": rng.random() < 0.5, "half_r": rng.random() < 0.5,
                "lc": rng.random() < 0.5, "rc": rng.random() < 0.5, "layout": rng.choice(LAYOUTS),
-               "data": _free_cells(rng, n, 0), "argty": "np" if rng.random() < 0.3 else None}
+               "data": _free_cells(rng, n, 0), "argty": "np" if rng.random() < 0.3 else None,
+               "call": rng.choice([None, None, None, 2, 3, 4, 5, "kwall"]), "build": rng.choice(["time_dim", "time_dim"] + calls.BUILDS[1:])}
+
+
+# ------------------------------------------------------------------ construction paths, call styles (HISTORIES.md section 2)
+ARGTYS = [None, "int", "np", "np32", "npint"]
+_OP_FN = {"crop_dim": "crop_dim", "extend_dim": "extend_dim"}
+
+
+def _fname_of(op, case):
+    return calls.WIDTH_FN[case["fn"]] if op == "width" else _OP_FN[op]
+
+
+def _styled(ctx, op, cases, p_call=0.25, p_build=0.3, p_dim=0.2):
+    """the same requests, passed and built in other legitimate ways: the first k optional arguments positionally in
+    the documented order (k = 0: everything by keyword, "kwall": the array and the dimension too), arrays from other
+    construction paths, other dimension names, other scalar types, non-contiguous data"""
+    rng = ctx.rng
+    for c in cases:
+        if rng.random() < p_call:
+            fname = _fname_of(op, c)
+            c["call"] = rng.choice(list(range(calls.n_optional(fname) + 1)) + ["kwall"])
+            ctx.tally(f"call:{fname}:{c['call']}")
+        if rng.random() < p_build:
+            c["build"] = rng.choice(calls.BUILDS[1:])
+            ctx.tally("build:" + c["build"])
+        if rng.random() < p_dim:
+            c["dim"] = rng.choice(calls.DIMS[1:])
+        if c.get("layout") in ("2d-last", "3d-mid") and rng.random() < 0.3:
+            c["noncontig"] = True
+        if c.get("argty") is None and not c.get("int_axis") and rng.random() < 0.12:
+            c["argty"] = rng.choice(ARGTYS[1:])
+        yield c
+
+
+def _positional_cases(ctx):
+    """every public function x every way of passing its optional arguments (k leading ones positionally in the
+    documented order, k = 0 .. all; all by keyword; array and dimension by keyword too) x every combination of the
+    flags / options, on small axes where each flag changes the answer"""
+    rng = ctx.rng
+    axes = [([Fraction(i) for i in range(10)], None), ([Fraction(i, 2) for i in range(-2, 4)], "1/2")]
+    out = {"crop_dim": [], "extend_dim": [], "width": []}
+    flagsets = _FLAGS + [(None, None), (None, True), (False, None)]
+    for coords, attr in axes:
+        n = len(coords)
+        data = [("nan" if i == 1 else i + 1) for i in range(n)]
+        base = {"coords": rats(coords), "data": data, "step_attr": attr, "layout": "1d"}
+        # crop_dim: requests whose ends are coordinates, so that each flag decides one sample
+        for s, e in [(coords[2], coords[n - 3]), (None, coords[n - 3]), (coords[2], None), (coords[0], coords[-1]), (coords[3], coords[3])]:
+            for lc, rc in flagsets:
+                for eps in (None, "1/1024"):
+                    for style in [None] + list(range(6)) + ["kwall"]:
+                        out["crop_dim"].append(dict(base, start=None if s is None else rat(s), stop=None if e is None else rat(e),
+                                                    lc=lc, rc=rc, eps=eps, call=style))
+        # extend_dim: requests whose ends are lattice points beyond the axis
+        step = coords[1] - coords[0]
+        for s, e in [(coords[0] - 2 * step, coords[-1] + 3 * step), (None, coords[-1] + step), (coords[0] - step, None),
+                     (coords[0], coords[-1])]:
+            for lc, rc in flagsets:
+                for fill in (None, -9, "nan"):
+                    eps = rng.choice([None, "1/1024"])
+                    for style in [None] + list(range(7)) + ["kwall"]:
+                        if (lc is False and s == coords[0]) or (rc is False and e == coords[-1]):
+                            continue      # an open end on the axis end does not contain the axis: outside the quantifier
+                        out["extend_dim"].append(dict(base, start=None if s is None else rat(s), stop=None if e is None else rat(e),
+                                                      lc=lc, rc=rc, eps=eps, fill=fill, call=style))
+    # the width family
+    for n in (1, 4, 5):
+        coords = [Fraction(3, 2) + Fraction(i, 4) for i in range(n)]
+        base = {"coords": rats(coords), "data": [("nan" if i == 1 else i + 1) for i in range(n)], "step_attr": "1/4", "layout": "1d"}
+        for fn in ("adjust", "crop", "extend"):
+            nopt = calls.n_optional(calls.WIDTH_FN[fn])
+            for w in sorted({max(n - 2, 1), max(n - 1, 1), n, n + 1, n + 2, n + 3}):
+                if (fn == "crop" and w >= n) or (fn == "extend" and w <= n):
+                    continue
+                for pos in (None, "start", "center", "end"):
+                    for fill in ((None,) if fn == "crop" else (None, -9)):
+                        for style in [None] + list(range(nopt + 1)) + ["kwall"]:
+                            out["width"].append(dict(base, fn=fn, w=w, pos=pos, fill=fill, call=style))
+    for op, cs in out.items():
+        ctx.tally("positional-product:" + op, len(cs))
+    return out
+
+
+def _path_cases(ctx):
+    """every construction path x every dimension name x every layout, one crop / extend / width request each"""
+    rng = ctx.rng
+    out = {"crop_dim": [], "extend_dim": [], "width": []}
+    for build in calls.BUILDS:
+        for dim in calls.DIMS:
+            for layout in LAYOUTS:
+                n = rng.choice([1, 2, 5, 8])
+                a0, step, coords = _axis(rng, n, rng.choice([0, 1, 2]))
+                fill = rng.choice(FILLS)
+                for attr in ([True, False] if n >= 2 else [True]):
+                    b = _base(rng, coords, step, attr, layout, fill)
+                    b.update({"build": build, "dim": dim, "noncontig": rng.random() < 0.5})
+                    b.pop("argty", None)
+                    lc, rc = rng.choice(_FLAGS)
+                    i, j = sorted((rng.randrange(n), rng.randrange(n)))
+                    out["crop_dim"].append(dict(b, start=rat(coords[i]), stop=rat(coords[j]), lc=lc, rc=rc, eps=None))
+                    kl, kr = rng.choice([0, 1, 2, 3]), rng.choice([0, 1, 2, 3])
+                    out["extend_dim"].append(dict(b, start=rat(coords[0] - (kl + Fraction(1, 2)) * step),
+                                                  stop=rat(coords[-1] + (kr + Fraction(1, 2)) * step), lc=lc, rc=rc, eps=None, fill=fill))
+                    for w in (max(n - 1, 1), n, n + 3):
+                        out["width"].append(dict(b, fn="adjust", w=w, fill=fill, pos=rng.choice(["start", "center", "end"])))
+    # float32 axes (coordinates, steps and every lattice point reached are float32 numbers)
+    for n in (1, 3, 6):
+        coords = [Fraction(5, 4) + Fraction(i, 4) for i in range(n)]
+        for attr in ([True, False] if n >= 2 else [True]):
+            b = {"coords": rats(coords), "data": [i + 1 for i in range(n)], "step_attr": "1/4" if attr else None, "layout": "1d",
+                 "f32_axis": True}
+            for lc, rc in _FLAGS:
+                out["crop_dim"].append(dict(b, start=rat(coords[0]), stop=rat(coords[-1]), lc=lc, rc=rc, eps=None))
+                out["extend_dim"].append(dict(b, start=rat(coords[0] - Fraction(3, 4)), stop=rat(coords[-1] + Fraction(1, 2)),
+                                              lc=lc, rc=rc, eps=None, fill=-9))
+            for w in range(1, n + 4):
+                for pos in ("start", "center", "end"):
+                    out["width"].append(dict(b, fn="adjust", w=w, fill=-9, pos=pos))
+    return out
+
+
+# ------------------------------------------------------------------ products of options (HISTORIES.md section 3)
+def _product_cases(ctx):
+    """every option of a function against every other option and every class of input, all siblings (start / center /
+    end, left / right, the three width functions): layouts, attribute presence, dimension names rotate underneath"""
+    rng = ctx.rng
+    out = {"crop_dim": [], "extend_dim": [], "width": []}
+    rot = [0]
+
+    def under(b):
+        rot[0] += 1
+        b["layout"] = LAYOUTS[rot[0] % 4]
+        b["dim"] = calls.DIMS[(rot[0] // 4) % 3]
+        return b
+
+    fills = [0, -9, 77, "nan", "inf", "-inf"]
+    for n in (1, 2, 5, 6):
+        a0, step, coords = _axis(rng, n, 2)
+        for w in sorted({1, max(n - 1, 1), n, n + 1, n + 2, n + 3, 2 * n, 2 * n + 1}):
+            for pos in ("start", "center", "end"):
+                for fill in fills:
+                    for attr in ([True, False] if n >= 2 else [True]):
+                        b = under({"coords": rats(coords), "step_attr": rat(step) if attr else None})
+                        b["data"] = _cells(rng, n, _ncols(b["layout"]), fill)
+                        out["width"].append(dict(b, fn="adjust", w=w, fill=fill, pos=pos))
+                        if w > n:
+                            out["width"].append(dict(b, fn="extend", w=w, fill=fill, pos=pos))
+                    if w < n:
+                        out["width"].append(dict(b, fn="crop", w=w, fill=None, pos=pos))
+    for n in (1, 2, 5):
+        a0, step, coords = _axis(rng, n, 2)
+        # classes of a requested end: absent, the axis end, a coordinate, between two coordinates
+        starts = [None, coords[0], coords[n // 2], coords[n // 2] - step / 2 if n > 1 else coords[0]]
+        stops = [None, coords[-1], coords[n // 2], coords[n // 2] + step / 2 if n > 1 else coords[-1]]
+        for s in starts:
+            for e in stops:
+                for lc, rc in _FLAGS:
+                    for eps in (None, rat(step / 8)):
+                        b = under({"coords": rats(coords), "step_attr": rat(step) if rot[0] % 2 else None})
+                        b["data"] = _cells(rng, n, _ncols(b["layout"]), 0)
+                        out["crop_dim"].append(dict(b, start=None if s is None else rat(s), stop=None if e is None else rat(e),
+                                                    lc=lc, rc=rc, eps=eps))
+        starts = [None, coords[0], coords[0] - 2 * step, coords[0] - step * Fraction(5, 2), coords[0] - step / 4]
+        stops = [None, coords[-1], coords[-1] + 3 * step, coords[-1] + step * Fraction(3, 2), coords[-1] + step / 4]
+        for s in starts:
+            for e in stops:
+                for lc, rc in _FLAGS:
+                    if (not lc and s == coords[0]) or (not rc and e == coords[-1]):
+                        continue
+                    for fill in (fills if ctx.thorough() else fills[:1] + fills[1::2] + [rng.choice(fills)]):
+                        b = under({"coords": rats(coords), "step_attr": rat(step) if (rot[0] % 2 or n < 2) else None})
+                        b["data"] = _cells(rng, n, _ncols(b["layout"]), fill)
+                        out["extend_dim"].append(dict(b, start=None if s is None else rat(s), stop=None if e is None else rat(e),
+                                                      lc=lc, rc=rc, eps=rng.choice([None, rat(step / 8)]), fill=fill))
+    for op, cs in out.items():
+        ctx.tally("option-product:" + op, len(cs))
+    return out
+
+
+# ------------------------------------------------------------------ boundaries and sizes (HISTORIES.md section 4)
+def _boundary_cases(ctx):
+    """offsets of relative size 1e-6 .. 1e-12 on both sides of every comparison the functions make (request against
+    the axis range, request ends against each other, coordinates against the eps-shifted ends), at small and large
+    magnitudes; everything dyadic, so the comparison with the model is exact"""
+    out = {"crop_dim": [], "extend_dim": []}
+    for a0, step in [(Fraction(0), Fraction(1)), (Fraction(1 << 20), Fraction(1)), (Fraction(-(1 << 20)), Fraction(1, 64)),
+                     (Fraction(3, 1024), Fraction(1, 1024)), (Fraction(1 << 16), Fraction(64))]:
+        n = 6
+        coords = [a0 + i * step for i in range(n)]
+        base = {"coords": rats(coords), "data": [i + 1 for i in range(n)], "layout": "1d"}
+        mag = max(abs(coords[0]), abs(coords[-1]), step)
+        deltas = [Fraction(0)] + [d for k in ((20, 30, 40) if ctx.thorough() else (20, 40)) for d in (mag / (1 << k), -mag / (1 << k))]
+        eps = step / 16
+        for d in deltas:
+            for lc, rc in _FLAGS:
+                for attr in ((None, rat(step)) if ctx.thorough() else (rat(step) if lc == rc else None,)):
+                    b = dict(base, step_attr=attr, lc=lc, rc=rc, eps=rat(eps))
+                    # crop: the request against the axis range and the two ends against each other
+                    out["crop_dim"].append(dict(b, start=rat(coords[0] + d), stop=rat(coords[3])))
+                    out["crop_dim"].append(dict(b, start=rat(coords[1]), stop=rat(coords[-1] + d)))
+                    out["crop_dim"].append(dict(b, start=rat(coords[2]), stop=rat(coords[2] + d)))
+                    # crop: a coordinate exactly on / just beside the eps-shifted end
+                    out["crop_dim"].append(dict(b, start=rat(coords[1] - eps + d), stop=rat(coords[4])))
+                    out["crop_dim"].append(dict(b, start=rat(coords[1]), stop=rat(coords[4] + eps + d)))
+                    out["crop_dim"].append(dict(b, start=rat(coords[1] + d), stop=rat(coords[4] + d)))
+                    # extend: the shifted ends against the lattice points beyond the axis and against the axis ends
+                    e = dict(b, fill=-9)
+                    out["extend_dim"].append(dict(e, start=rat(coords[0] - 2 * step + d), stop=rat(coords[-1] + 2 * step + d)))
+                    out["extend_dim"].append(dict(e, start=rat(coords[0] - 2 * step + eps + d), stop=rat(coords[-1] + 2 * step - eps + d)))
+                    out["extend_dim"].append(dict(e, start=rat(coords[0] - 2 * step - eps + d), stop=rat(coords[-1] + 2 * step + eps + d)))
+                    out["extend_dim"].append(dict(e, start=rat(coords[0] - step + d), stop=rat(coords[-1] + d)))
+                    out["extend_dim"].append(dict(e, start=rat(coords[0] + d), stop=rat(coords[-1] + step + d)))
+    for op, cs in out.items():
+        ctx.tally("boundary:" + op, len(cs))
+    return out
+
+
+SIZE_THRESHOLDS = [16, 17, 255, 256, 257, 1023, 1024, 1025]
+
+
+def _size_cases(ctx):
+    """axis lengths and widths around the sizes where an implementation could switch strategy"""
+    rng = ctx.rng
+    out = {"crop_dim": [], "extend_dim": [], "width": []}
+    for n in SIZE_THRESHOLDS + ([2047, 2048, 2049, 4097] if ctx.thorough() else []):
+        a0, step, coords = _axis(rng, n, rng.choice([0, 1, 3]))
+        for attr in (True, False):
+            b = {"coords": rats(coords), "data": [("nan" if i % 97 == 5 else i + 1) for i in range(n)],
+                 "step_attr": rat(step) if attr else None, "layout": "1d"}
+            for pos in ("start", "center", "end"):
+                for w in (1, n - 1, n, n + 1, n + 16, n + 17):
+                    out["width"].append(dict(b, fn="adjust", w=w, fill=-9, pos=pos))
+            lc, rc = rng.choice(_FLAGS)
+            out["crop_dim"].append(dict(b, start=rat(coords[1]), stop=rat(coords[-2]), lc=lc, rc=rc, eps=None))
+            out["crop_dim"].append(dict(b, start=rat(coords[n // 2]), stop=None, lc=rc, rc=lc, eps=None))
+            out["extend_dim"].append(dict(b, start=rat(coords[0] - 3 * step), stop=rat(coords[-1] + step * Fraction(5, 2)), lc=lc, rc=rc,
+                                          eps=None, fill=77))
+    # widths crossing a threshold from a short axis
+    for w in SIZE_THRESHOLDS:
+        n = 9
+        a0, step, coords = _axis(rng, n, 1)
+        for pos in ("start", "center", "end"):
+            out["width"].append({"coords": rats(coords), "data": list(range(1, n + 1)), "step_attr": rat(step), "layout": "1d",
+                                 "fn": "adjust", "w": w, "fill": "nan", "pos": pos})
+    return out
+
+
+# ------------------------------------------------------------------ sessions (HISTORIES.md section 1)
+def _session_variants(x, rng):
+    """neighbours of a call: inputs that share part of x (the same array with other options, the same axis with other
+    data, the same data on a shifted / rescaled axis, the same request with the defaults, another function on the same
+    array, another way of passing the same arguments)"""
+    out = []
+    fn = x["fn"]
+    n = len(x["coords"])
+    cs = [frac(c) for c in x["coords"]]
+    k = _ncols(x.get("layout", "1d"))
+
+    def v(**kw):
+        y = dict(x)
+        y.update(kw)
+        out.append(y)
+
+    # the same axis, other data (a cache keyed by the coordinates / the shape)
+    v(data=[[1000 + i * k + j for j in range(k)] if k > 1 else 1000 + i for i in range(n)])
+    # the same data, the axis shifted by one step / scaled by two (a cache keyed by the data or by the size)
+    d = (cs[1] - cs[0]) if n >= 2 else (frac(x["step_attr"]) if x.get("step_attr") else Fraction(1))
+    sh = {"coords": rats([c + d for c in cs])}
+    for key in ("start", "stop"):
+        if x.get(key) is not None:
+            sh[key] = rat(frac(x[key]) + d)
+    v(**sh)
+    if x.get("step_attr") is not None and n >= 1:
+        sc = {"coords": rats([cs[0] + (c - cs[0]) * 2 for c in cs]), "step_attr": rat(frac(x["step_attr"]) * 2)}
+        for key in ("start", "stop"):
+            if x.get(key) is not None:
+                sc[key] = rat(cs[0] + (frac(x[key]) - cs[0]) * 2)
+        v(**sc)
+    if n >= 2:      # the step attribute dropped / added (a regular axis: the estimate is the same step)
+        v(step_attr=None if x.get("step_attr") is not None else rat(d))
+    # the same array, other options; then the plain call (options must not stick)
+    if fn in ("crop_dim", "extend_dim"):
+        v(lc=not x["lc"] if x.get("lc") is not None else False)
+        v(rc=not x["rc"] if x.get("rc") is not None else True)
+        v(lc=None, rc=None, eps=None)
+        v(eps=rat(d / rng.choice([2, 8])) if x.get("eps") is None else None)
+    if fn in ("extend_dim", "width"):
+        v(fill=rng.choice([f_ for f_ in FILLS if f_ != x.get("fill")]))
+        v(fill=None)
+    if fn == "width":
+        v(pos=rng.choice([p for p in ("start", "center", "end") if p != x.get("pos")]))
+        v(pos=None)
+        v(w=x["w"] + rng.choice([1, 2]))
+        if x["w"] > 1:
+            v(w=x["w"] - 1)
+        # another function on the same array
+        v(fn="extend_dim", start=rat(cs[0] - 2 * d), stop=rat(cs[-1] + d), lc=True, rc=True, eps=None)
+        v(fn="crop_dim", start=rat(cs[0]), stop=rat(cs[-1]), lc=True, rc=n < 2, eps=None)
+    else:
+        v(fn="width", w=n + 2, fill=x.get("fill", 0), pos="center")
+        v(fn="width", w=n, fill=0, pos="start")          # same width: the function hands the argument back
+    # the same call passed differently
+    fname = _SESSION_FN[fn]
+    v(call=rng.choice(list(range(calls.n_optional(fname) + 1))) if x.get("call") is None else None)
+    v(dim=rng.choice([dn for dn in calls.DIMS if dn != x.get("dim", "time")]))
+    return [y for y in out if not (y["fn"] != "crop_dim" and len(y["coords"]) < 2 and y.get("step_attr") is None)]
+
+
+def _session_cases(ctx, count):
+    rng = ctx.rng
+    base = []
+    for op, gen in (("crop_dim", _crop_cases(ctx, 6)), ("extend_dim", _extend_cases(ctx, 6)),
+                    ("width", _width_cases(ctx, [1, 2, 3, 5, 8]))):
+        pool = [c for c in gen if len(c["coords"]) <= 13 and not c.get("int_axis") and _dyadic_case(c)]
+        rng.shuffle(pool)
+        for c in pool[:ctx.budget(60, 400)]:
+            if op == "width":
+                if c["fn"] != "adjust" or c.get("pos") not in (None, "start", "center", "end"):
+                    continue
+                c = {k: v for k, v in c.items() if k != "fn"}
+            if op != "crop_dim" and len(c["coords"]) < 2 and c.get("step_attr") is None:
+                continue
+            c["fn"] = op
+            base.append(c)
+    hs = history.sequences(rng, base, count, variants=_session_variants, reuse_hows=H_REUSE, poison=True)
+    for h in hs:
+        for st in h["seq"]:
+            ctx.tally("session:" + (st.get("reuse") or "fresh") + ("+poison" if st.get("poison") else ""))
+    return hs
+
+
+# ------------------------------------------------------------------ every lattice point of non-dyadic axes (free mode)
+SWEEP_STEPS = [0.01, 0.1, 1 / 3, 0.29]
+
+
+def _sweep_axes(ctx):
+    if ctx.thorough():
+        return [(s, a0) for s in SWEEP_STEPS for a0 in (0.0, 0.3, 12.7)]
+    return [(0.01, 0.0)] + [(s, 0.3) for s in SWEEP_STEPS]
+
+
+def _crop_sweep_cases(ctx):
+    """crop_dim with one end on *every* coordinate of a few non-dyadic axes (not random positions)"""
+    rng = ctx.rng
+    n = 100 if ctx.thorough() else 60
+    for step, a0 in _sweep_axes(ctx):
+        if True:
+            for i in range(n):
+                for closed in (True, False):
+                    other = rng.random() < 0.5
+                    common = {"a0": rat(a0), "step": rat(step), "n": n, "attr": i % 2 == 0, "half_l": False, "half_r": False,
+                              "layout": "1d", "data": None}
+                    yield dict(common, i=i, j=n - 1, lc=closed, rc=other)
+                    yield dict(common, i=0, j=i, lc=other, rc=closed)
+
+
+def _extend_sweep_cases(ctx):
+    """extend_dim with the requested end on every lattice point (and half-way point) up to 60 steps beyond the axis"""
+    rng = ctx.rng
+    for step, a0 in _sweep_axes(ctx):
+        if True:
+            for h in range(0, 121 if ctx.thorough() else 81):
+                for closed in (True, False):
+                    fill = rng.choice(FREE_FILLS)
+                    common = {"a0": rat(a0), "step": rat(step), "n": 7, "attr": h % 3 != 0, "fill": fill, "layout": "1d", "data": None}
+                    yield _inside_quantifier(dict(common, kl2=0, kr2=h, lc=True, rc=closed))
+                    yield _inside_quantifier(dict(common, kl2=h, kr2=0, lc=closed, rc=True))
+
+
+def _width_sweep_cases(ctx):
+    """adjust_dim_width to every width up to 60 beyond the axis, three positions"""
+    rng = ctx.rng
+    for step, a0 in _sweep_axes(ctx):
+        if True:
+            n = 10
+            for w in range(1, n + (61 if ctx.thorough() else 41)):
+                for pos in ("start", "center", "end"):
+                    yield {"a0": rat(a0), "step": rat(step), "n": n, "attr": w % 2 == 0, "w": w, "pos": pos,
+                           "fill": rng.choice(FREE_FILLS), "layout": "1d", "data": None}
 
 
 QUICK_LENGTHS = [1, 2, 3, 4, 5, 7, 8, 12, 16, 25, 40]
@@ -1209,38 +1746,118 @@ QUICK_LENGTHS = [1, 2, 3, 4, 5, 7, 8, 12, 16, 25, 40]
 
 def _stage_obligations(ctx):
     ctx.stage("signature-defaults", _defaults, ctx)
+    ctx.stage("signature-order", _signature_order, ctx)
     ctx.stage("symbolic-ties", _symbolic_ties, ctx)
     ctx.discharge(["SoundeventModel.Axis", "SoundeventModel.AxisOps", "SoundeventModel.Tactics"])
 
 
 def _stage_width(ctx):
     lengths = list(range(1, 41)) if ctx.thorough() else QUICK_LENGTHS
-    ctx.run_cases(OPS["width"], _width_cases(ctx, lengths))
+    ctx.run_cases(OPS["width"], _styled(ctx, "width", _width_cases(ctx, lengths), p_call=0.15, p_build=0.15))
     ctx.exhaustive["width"] = (f"dyadic axes of lengths {lengths[0]}..{lengths[-1]} ({len(lengths)} lengths): every width "
                                "1..2n+3 x start/center/end x step attribute present/absent")
     ctx.exhaustive["crop_dim"] = "axes -3..3, -1..1/2 (step 1/2), [0], [-5/4, -1/4]: every pair of ends on coordinates x 4 closedness flags"
 
 
+def _dyadic_case(c):
+    """every number of the request is a binary64 number with few bits (the exact comparison needs it)"""
+    qs = [frac(x) for x in c["coords"]] + [frac(c[k]) for k in ("start", "stop", "eps", "step_attr") if c.get(k) is not None]
+    return all(float(q) == q and q.denominator <= (1 << 30) for q in qs)
+
+
+def _exactly_representable(c):
+    """the request values, and the eps-shifted ends the code forms from them, are binary64 numbers"""
+    qs = [frac(c[k]) for k in ("start", "stop") if c.get(k) is not None]
+    if c.get("eps") is not None:
+        e = frac(c["eps"])
+        qs += [q + e for q in qs] + [q - e for q in qs]
+    return all(float(q) == q for q in qs + [frac(x) for x in c["coords"]])
+
+
+def _run_by_op(ctx, groups, styled=False):
+    for op in ("crop_dim", "extend_dim", "width"):
+        cs = groups.get(op) or []
+        if styled:
+            cs = _styled(ctx, op, cs)
+        ctx.run_cases(OPS[op], cs)
+
+
+def _stage_positional(ctx):
+    _run_by_op(ctx, _positional_cases(ctx))
+    ctx.exhaustive["positional"] = ("crop_dim, extend_dim, adjust_dim_width, crop_dim_width, extend_dim_width: every number k of leading "
+                                    "optional arguments passed positionally in the documented order (k = 0 .. all), all by keyword, "
+                                    "array and dimension by keyword x every combination of closedness flags (given / default) / "
+                                    "position / fill value, on the axes 0..9 and -1..3/2 (step 1/2)")
+
+
+def _stage_paths(ctx):
+    _run_by_op(ctx, _path_cases(ctx))
+    ctx.exhaustive["construction"] = (f"{len(calls.BUILDS)} construction paths ({', '.join(calls.BUILDS)}) x dimension names "
+                                      f"{calls.DIMS} x layouts {LAYOUTS}; float32 axes")
+
+
+def _stage_products(ctx):
+    _run_by_op(ctx, _product_cases(ctx), styled=True)
+
+
+def _stage_boundaries(ctx):
+    groups = _boundary_cases(ctx)
+    _run_by_op(ctx, {op: [c for c in cs if _exactly_representable(c)] for op, cs in groups.items()})
+    _run_by_op(ctx, _size_cases(ctx))
+    ctx.exhaustive["sizes"] = f"axis lengths / widths {SIZE_THRESHOLDS}: widths 1, n-1, n, n+1, n+16, n+17 x three positions"
+
+
+def _stage_sessions(ctx):
+    ctx.run_cases(OPS["session"], _session_cases(ctx, ctx.budget(400, 3000)))
+
+
+def _stage_sweeps(ctx):
+    ctx.run_cases(OPS["crop_free"], _crop_sweep_cases(ctx))
+    ctx.run_cases(OPS["extend_free"], _extend_sweep_cases(ctx))
+    ctx.run_cases(OPS["width_free"], _width_sweep_cases(ctx))
+    ctx.exhaustive["lattice-sweeps"] = (f"steps {SWEEP_STEPS} x starts 0, 0.3: crop_dim with an end on every one of 60 (thorough: 100) coordinates; "
+                                        "extend_dim with an end on every lattice / half-way point up to 40 (thorough: 60) steps beyond the "
+                                        "axis; adjust_dim_width to every width 1..50 (70) of a 10-sample axis")
+
+
+def _flush_stats(ctx):
+    for k, v in sorted(calls.STATS.items()):
+        ctx.tally(k, v)
+    calls.STATS.clear()
+
+
 def run(ctx):
     ctx.stage("corpus", ctx.run_corpus, OPS)
     ctx.stage("obligations", _stage_obligations, ctx)
+    ctx.stage("positional-exact", _stage_positional, ctx)
     ctx.stage("width-exact", _stage_width, ctx)
-    ctx.stage("crop-exact", lambda: ctx.run_cases(OPS["crop_dim"], _crop_cases(ctx, ctx.budget(25, 200))))
-    ctx.stage("extend-exact", lambda: ctx.run_cases(OPS["extend_dim"], _extend_cases(ctx, ctx.budget(25, 200))))
+    ctx.stage("crop-exact", lambda: ctx.run_cases(OPS["crop_dim"], _styled(ctx, "crop_dim", _crop_cases(ctx, ctx.budget(25, 200)))))
+    ctx.stage("extend-exact", lambda: ctx.run_cases(OPS["extend_dim"], _styled(ctx, "extend_dim", _extend_cases(ctx, ctx.budget(25, 200)))))
+    ctx.stage("paths-exact", _stage_paths, ctx)
+    ctx.stage("products-exact", _stage_products, ctx)
+    ctx.stage("boundaries-exact", _stage_boundaries, ctx)
     ctx.stage("history-exact", lambda: ctx.run_cases(OPS["history"], _history_cases(ctx, ctx.budget(700, 6000))))
+    ctx.stage("sessions-exact", _stage_sessions, ctx)
     ctx.stage("step-exact", lambda: ctx.run_cases(OPS["dim_step"], _step_cases(ctx)))
     ctx.stage("range-exact", lambda: ctx.run_cases(OPS["dim_range"], _range_cases(ctx)))
     ctx.stage("width-free-monitor", lambda: ctx.run_cases(OPS["width_free"], _width_free_cases(ctx)))
     ctx.stage("extend-free-monitor", lambda: ctx.run_cases(OPS["extend_free"], _extend_free_cases(ctx)))
     ctx.stage("crop-free-monitor", lambda: ctx.run_cases(OPS["crop_free"], _crop_free_cases(ctx)))
+    ctx.stage("lattice-sweeps", _stage_sweeps, ctx)
+    _flush_stats(ctx)
 
 
 def search(ctx, failures):
-    ctx.run_cases(OPS["width"], _width_cases(ctx, QUICK_LENGTHS))
-    ctx.run_cases(OPS["crop_dim"], _crop_cases(ctx, 40))
-    ctx.run_cases(OPS["extend_dim"], _extend_cases(ctx, 40))
+    _stage_positional(ctx)
+    ctx.run_cases(OPS["width"], _styled(ctx, "width", _width_cases(ctx, QUICK_LENGTHS)))
+    ctx.run_cases(OPS["crop_dim"], _styled(ctx, "crop_dim", _crop_cases(ctx, 40)))
+    ctx.run_cases(OPS["extend_dim"], _styled(ctx, "extend_dim", _extend_cases(ctx, 40)))
+    _stage_paths(ctx)
+    _stage_products(ctx)
     ctx.run_cases(OPS["history"], _history_cases(ctx, 700))
+    _stage_sessions(ctx)
     ctx.run_cases(OPS["dim_step"], _step_cases(ctx))
     ctx.run_cases(OPS["width_free"], _width_free_cases(ctx))
     ctx.run_cases(OPS["extend_free"], _extend_free_cases(ctx))
     ctx.run_cases(OPS["crop_free"], _crop_free_cases(ctx))
+    _stage_sweeps(ctx)
